@@ -90,7 +90,7 @@ def pOrdEntry : P (Bool × Rat × Int) := do
   | _ => P.fail
 
 def ordKeys (ps : List MatchedPair) (es : List (Bool × Rat × Int)) : Option (List LineKey) := do
-  let knots ← timeMapKnots ps
+  let knots := timeMapKnots ps
   es.mapM fun (isScore, a, b) =>
     if isScore then some { k1 := a, k2 := b }
     else (interpLin knots a).map fun y => { k1 := y, k2 := b }
@@ -135,7 +135,9 @@ def handle (ts : List String) : String :=
         fmtTuple [fmtNat r.divs,
           fmtList (fun (b, p) => fmtTuple [fmtInt b, fmtInt p]) r.barlines,
           fmtInt r.lastBarEnd,
-          fmtList (fun (p, n, d) => fmtTuple [fmtInt p, fmtNat n, fmtNat d]) r.tsPos,
+          fmtList (fun (p, n, d) => fmtTuple [fmtInt p, fmtNat n, fmtNat d])
+            (sortBy (fun a b => decide (a.1 < b.1) || (decide (a.1 = b.1) &&
+              (decide (a.2.1 < b.2.1) || (decide (a.2.1 = b.2.1) && decide (a.2.2 ≤ b.2.2))))) r.tsPos),
           fmtList fmtInt r.ksPos,
           fmtNat (r.fallback.filter id).length]
   | "decn" :: rest =>
